@@ -324,6 +324,137 @@ func All() []Program {
 			<-t.C
 			return "2"
 		}, []string{"2"}},
+		{"cond-handoff", func() string {
+			// two consumers wait for two items; Signal wakes in arrival order,
+			// a Signal before the Wait is kept by the predicate loop
+			var mu sync.Mutex
+			c := sync.NewCond(&mu)
+			q := 0
+			got := make(chan string, 2)
+			for _, name := range []string{"a", "b"} {
+				go func(name string) {
+					mu.Lock()
+					for q == 0 {
+						c.Wait()
+					}
+					q--
+					mu.Unlock()
+					got <- name
+				}(name)
+			}
+			for i := 0; i < 2; i++ {
+				mu.Lock()
+				q++
+				mu.Unlock()
+				c.Signal()
+			}
+			return <-got + <-got
+		}, []string{"ab", "ba"}},
+		{"cond-broadcast", func() string {
+			var mu sync.Mutex
+			c := sync.NewCond(&mu)
+			open := false
+			var wg sync.WaitGroup
+			var n atomic.Int32
+			for i := 0; i < 2; i++ {
+				wg.Add(1)
+				go func() {
+					defer wg.Done()
+					mu.Lock()
+					for !open {
+						c.Wait()
+					}
+					mu.Unlock()
+					n.Add(1)
+				}()
+			}
+			mu.Lock()
+			open = true
+			mu.Unlock()
+			c.Broadcast()
+			wg.Wait()
+			return fmt.Sprint(n.Load())
+		}, []string{"2"}},
+		{"oncevalue-racing-callers", func() string {
+			var calls atomic.Int32
+			f := sync.OnceValue(func() int { return int(calls.Add(1)) * 10 })
+			g := sync.OnceFunc(func() { calls.Add(100) })
+			res := make(chan int, 2)
+			for i := 0; i < 2; i++ {
+				go func() { g(); res <- f() }()
+			}
+			a, b := <-res, <-res
+			return fmt.Sprint(a, b, calls.Load())
+		}, []string{"1010 1010 101"}},
+		{"context-afterfunc", func() string {
+			ctx, cancel := context.WithCancel(context.Background())
+			ran := make(chan string, 2)
+			stop := context.AfterFunc(ctx, func() { ran <- "f" })
+			stop2 := context.AfterFunc(ctx, func() { ran <- "g" })
+			s2 := stop2() // stopped before the context ends: g never runs
+			cancel()
+			first := <-ran
+			s1 := stop() // f has started: stop reports false
+			plain := context.WithoutCancel(ctx)
+			select {
+			case <-plain.Done():
+				first += "!"
+			default:
+			}
+			return fmt.Sprint(first, s1, s2, len(ran), plain.Err() == nil)
+		}, []string{"ffalse true 0 true"}},
+		{"afterfunc-vs-stop", func() string {
+			ctx, cancel := context.WithCancel(context.Background())
+			ran := make(chan struct{}, 1)
+			stop := context.AfterFunc(ctx, func() { ran <- struct{}{} })
+			go cancel()
+			if stop() {
+				// stopped first: f will never run
+				select {
+				case <-ran:
+					return "stopped-but-ran"
+				case <-time.After(2 * time.Millisecond):
+					return "stopped"
+				}
+			}
+			<-ran
+			return "ran"
+		}, []string{"ran", "stopped"}},
+		{"atomic-swap-and-or", func() string {
+			var x int32
+			var flags atomic.Uint32
+			var wg sync.WaitGroup
+			res := make([]int32, 2)
+			for i := 0; i < 2; i++ {
+				wg.Add(1)
+				go func(i int) {
+					defer wg.Done()
+					res[i] = atomic.SwapInt32(&x, int32(i+1))
+					flags.Or(1 << uint(i))
+				}(i)
+			}
+			wg.Wait()
+			return fmt.Sprint(res[0]+res[1]+atomic.LoadInt32(&x), flags.And(1))
+		}, []string{"3 3"}},
+		{"syncmap-cas", func() string {
+			var m sync.Map
+			m.Store("k", 0)
+			var wg sync.WaitGroup
+			var wins atomic.Int32
+			for i := 0; i < 2; i++ {
+				wg.Add(1)
+				go func(i int) {
+					defer wg.Done()
+					if m.CompareAndSwap("k", 0, i+1) {
+						wins.Add(1)
+					}
+				}(i)
+			}
+			wg.Wait()
+			v, _ := m.Load("k")
+			old, loaded := m.Swap("k", 9)
+			return fmt.Sprint(wins.Load(), v == old, loaded, m.CompareAndDelete("k", 9))
+		}, []string{"1 true true true"}},
 		{"map-range", func() string {
 			m := map[string]int{"a": 1, "b": 2, "c": 3}
 			s := 0
